@@ -314,6 +314,19 @@ OpenPositionsFails(W, as, op) ==
        <<"C15.realized_plus_unrealized_is_total_acquired_cost",
             \A k \in 1..Len(as) : held(as[k]) =>
                SeqSum(as[k].cd.fr, LAMBDA f : f[5]) + SeqSum(arows(as[k]), LAMBDA r : r.cost) = AcquiredCost(W, as[k])>>,
+       \* the unsold parts are what is left after every disposal took exactly what left the holder, and they are what the accounts hold
+       <<"C15.lots_consumed_equal_amounts_disposed",
+            \A k \in 1..Len(as) :
+               LET E == Expand(as[k].h)
+                   disp == {i \in 1..Len(E) : IsDisposal(E[i]) /\ Day(E[i]) <= W.to}
+               IN ~CutAmbiguous(E, 1..Len(E), W.to) =>
+                    SeqSum(as[k].cd.fr, LAMBDA f : IF f[2] # 0 THEN f[3] ELSE 0) = Sum(disp, LAMBDA i : Total(E[i]))>>,
+       <<"C15.balances_reconcile_with_unsold_lots",
+            \A k \in 1..Len(as) :
+               LET E == Expand(as[k].h)
+                   lots == {i \in 1..Len(E) : IsIn(E[i]) /\ Day(E[i]) <= W.to}
+               IN ~CutAmbiguous(E, 1..Len(E), W.to) =>
+                    SeqSum(as[k].cd.bal, LAMBDA b : b[5]) = Sum(lots, LAMBDA i : E[i].amt) - SeqSum(as[k].cd.fr, LAMBDA f : IF f[2] # 0 THEN f[3] ELSE 0)>>,
        <<"C15.per_unit_cost_is_unrealized_cost_over_balance",
             \A k \in 1..Len(as) : held(as[k]) =>
                /\ \A i \in 1..Len(arows(as[k])) : arows(as[k])[i].unit[1] * totBal(as[k]) = arows(as[k])[i].unit[2] * Unrealized(W, as[k])
